@@ -249,7 +249,11 @@ class Session:
         return fn
 
     def machine(self, module, contracts, ctx, overrides=None, **kw):
-        m = machine.Machine(module, self.adts, contracts, ctx, repo=REPO, overrides=overrides, defindex=self.defs(module), **kw)
+        extra = ()
+        if module is self._bin:
+            self.defs(self.core)
+            extra = (self.core,)     # the CLI may call small library functions (Config builders) that no contract covers
+        m = machine.Machine(module, self.adts, contracts, ctx, repo=REPO, overrides=overrides, defindex=self.defs(module), extra_modules=extra, **kw)
         return m
 
     def absorb(self, m):
